@@ -8,7 +8,7 @@ from vt.verify import Clause
 from contracts import gmm as G
 from contracts import kmeans as KM
 from contracts import linear_scoring as LS
-from props.common import new_interp, collapse, guard
+from props.common import new_interp, collapse, guard, bounded
 from props.effects import effects_check
 
 FUNCTIONS = ["gmm.GMMMachine.fit (ML, MAP; one full iteration inlined)", "gmm.GMMMachine.__init__", "gmm.GMMMachine.initialize_gaussians",
@@ -136,6 +136,8 @@ def kmeans_entry(ctx):
                     "by the caller; the data are unchanged (with max_iter = 0 the centroids ARE the caller's array: stated precondition)")
 
 
+BOUNDED = [bounded("fa_repro.py", "inputs_unchanged", "C19.fa",
+                   "ISV/JFA fit, enroll and score leave the statistics and labels bit-identical; trained U, V, D share no memory with them")]
 GROUPS = [guard(gmm_fit), guard(map_prior_copy), guard(stats_ops), guard(scoring), guard(kmeans_entry)]
 SHARED = [("C02", "add_post", ["C02.add.frame", "C02.iadd.frame"]), ("C05", "mstep_map", ["C05.frame"]), ("C03", "mstep_ml", ["C03.m.frame"]),
           ("C08", "post", ["C08.frame"])]
